@@ -31,6 +31,26 @@ theorem wf_destruct_dealloc {s : St} (h : WF cfg s) {id : Nat} {o : Obj} (hget :
   refine wf_dealloc h1 ?_ hlive hnreg
   rw [get_updBody, hget]; simp
 
+theorem pending_updBody (s : St) (id : Nat) (f : Body → Body) : (s.updBody id f).pending = s.pending := rfl
+
+/-- `destruct` of a whole live object (Box_Del deletes the pointee through the collector, then clears the Box) -/
+theorem wf_destructObj (F : Facts cfg) {s : St} (h : WF cfg s) (hnp : NoPend s) {id : Nat} {o : Obj}
+    (hget : s.get id = some o) : WF cfg (destructObj cfg s id o).1 ∧ NoPend (destructObj cfg s id o).1 := by
+  have hbody : BodyOK cfg o.body := bodyOK_of_get h hget
+  have hd : BodyOK cfg (destructBody cfg o.hdr o.body).1 := destructBody_ok hbody
+  unfold destructObj
+  split
+  · rename_i x _
+    split
+    · have ht := gcRem_top F h hnp x (fuelFor s) (by simp only [fuelFor]; omega)
+      split
+      · rename_i s1 heq
+        rw [heq] at ht
+        exact ⟨wf_updBody ht.1 id (fun _ => Body.box none) (fun _ _ _ => trivial), ht.2⟩
+      · exact ht
+    · exact ⟨wf_updBody h id (fun _ => Body.box none) (fun _ _ _ => trivial), hnp⟩
+  · exact ⟨wf_updBody h id (fun _ => (destructBody cfg o.hdr o.body).1) (fun _ _ _ => hd), hnp⟩
+
 /-- a freeing operation on a whole live object, no sweep being under way: the invariant is kept (whatever the destructor
     of a Box deletes in turn) and no sweep is left under way -/
 theorem wf_freeObj (F : Facts cfg) {s : St} (h : WF cfg s) (hnp : NoPend s) {f : FreeOp} {id : Nat} {o : Obj}
@@ -46,10 +66,12 @@ theorem wf_freeObj (F : Facts cfg) {s : St} (h : WF cfg s) (hnp : NoPend s) {f :
   | deallocRoot => exact ⟨wf_dealloc h hget hlive (isReg_false (hguard rfl)), hpd s o hnp⟩
   | destruct =>
     simp only [freeObj]
-    exact ⟨wf_updBody h id _ (fun _ _ _ => hd), hnp⟩
+    exact wf_destructObj F h hnp hget
   | delRaw =>
     simp only [freeObj]
-    exact finalise_top F h hnp hget hlive (isReg_false (hguard rfl)) _ (by simp only [fuelFor]; omega)
+    split
+    · exact ⟨wf_dealloc h hget hlive (isReg_false (hguard rfl)), hpd s o hnp⟩
+    · exact finalise_top F h hnp hget hlive (isReg_false (hguard rfl)) _ (by simp only [fuelFor]; omega)
   | del =>
     simp only [freeObj, F.delViaCollector, if_true]
     exact gcRem_top F h hnp id _ (by simp only [fuelFor]; omega)
@@ -86,7 +108,11 @@ theorem wf_stepFree (F : Facts cfg) {s : St} (h : WF cfg s) (hnp : NoPend s) (f 
       repeat' split
       all_goals first
         | exact ⟨h, hnp⟩
-        | (refine wf_freeObj F h hnp hget ?_ ?_ <;> simp_all)
+        | (refine wf_freeObj F h hnp hget (by simp_all) ?_
+           intro hv
+           cases hr : s.isReg id with
+           | false => rfl
+           | true => simp_all [St.freeSkip])
     | elem id i =>
       simp only
       repeat' split
@@ -245,7 +271,7 @@ theorem wf_updBody_box {s : St} (h : WF cfg s) (id : Nat) (v : Option Nat) : WF 
   wf_updBody h id _ (fun _ _ _ => trivial)
 
 theorem wf_stepOwn {s : St} (h : WF cfg s) (hnp : NoPend s) (id : Nat) (target : Option Nat) :
-    WF cfg (stepOwn s id target).1 ∧ NoPend (stepOwn s id target).1 := by
+    WF cfg (stepOwn cfg s id target).1 ∧ NoPend (stepOwn cfg s id target).1 := by
   unfold stepOwn
   repeat' split
   all_goals first
